@@ -12,6 +12,7 @@ def run(tier, seed, limit=0):
     if limit:
         scs = scs[:limit]
     chk.run_scenarios(scs, MODULE, fn=RUNNER, batch_events=3000)
+    chk.run_mc("B_Cells", {"MaxW": 4 if tier == "quick" else 6}, label="mask arithmetic |= Wrap / part-select")
     return chk.finish(LEVEL, "widths x signedness x integers (exhaustive -2^(w+1)..2^(w+1) for small w, boundary values up to 64 bits) x "
                       "write paths (attr, set_val, .val, ctor init, list append/extend/setitem/assign) x all part-select bounds; after "
                       "every write every read path is logged and TLC requires them all to equal Wrap(v,w); distinct = distinct event content",
